@@ -787,9 +787,9 @@ class StubsStringGenerator:
 
             if len(type_data["types"]) == 2 and literal_data:
                 # If we have a LiteralType and a None we combine them to a "Literal[..., null]"
-                has_none = (type_data["types"][0]["kind"] == "NamedType" and type_data["types"][0]["kind"]) or (
-                    type_data["types"][1]["kind"] == "NamedType" and type_data["types"][1]["kind"]
-                )
+                has_none = (
+                    type_data["types"][0]["kind"] == "NamedType" and type_data["types"][0]["qname"] == "builtins.None"
+                ) or (type_data["types"][1]["kind"] == "NamedType" and type_data["types"][1]["qname"] == "builtins.None")
                 if has_none:
                     _types = type_data["types"]
                     literal_type_data = _types[0] if _types[0]["kind"] == "LiteralType" else _types[1]
